@@ -41,6 +41,41 @@ Example ex_first : wait_lin
      lo_term_after := 4; lo_fsm_idx := 9; lo_kinds := []; lo_reached := 9 |} = LinStrongNeeded.
 Proof. reflexivity. Qed.
 
+(* ---- strongReadTerm moves only when a strong read has been applied ---- *)
+
+Definition applied_in (t : N) (es : list srt_event) : Prop := In (SApplied t) es.
+
+Theorem srt_only_by_applied_strong_read es : forall srt t,
+  srt_run srt es = t -> srt = t \/ applied_in t es.
+Proof.
+  induction es as [|e es IH]; intros srt t H; cbn [srt_run fold_left] in H.
+  - now left.
+  - destruct (IH _ _ H) as [E | E].
+    + destruct e as [q | a | f]; cbn [srt_step] in E.
+      * now left.
+      * right. unfold applied_in. cbn [In]. left. f_equal. exact E.
+      * now left.
+    + right. unfold applied_in in *. cbn [In]. now right.
+Qed.
+
+(* every linearizable read that starts before a strong read of the current term has been applied
+   on this node is itself turned into a strong read - however many strong reads of the term are
+   already queued or have failed *)
+Theorem concurrent_first_reads_all_upgrade srt0 es o :
+  srt0 <> lo_term o -> ~ applied_in (lo_term o) es ->
+  wait_lin (with_srt o (srt_run srt0 es)) = LinStrongNeeded.
+Proof.
+  intros H0 Hn. apply first_read_in_term_upgrades. cbn [with_srt lo_term lo_srt].
+  intros E. destruct (srt_only_by_applied_strong_read es srt0 (lo_term o) (eq_sym E)) as [X | X]; auto.
+Qed.
+
+Example ex_concurrent :
+  let o := {| lo_term := 4; lo_srt := 0; lo_leader := true; lo_ready := true; lo_commit := 9; lo_verify := VOk;
+              lo_term_after := 4; lo_fsm_idx := 9; lo_kinds := []; lo_reached := 9 |} in
+  wait_lin (with_srt o (srt_run 3 [SQueued 4; SQueued 4; SFailed 4])) = LinStrongNeeded
+  /\ wait_lin (with_srt o (srt_run 3 [SQueued 4; SApplied 4])) = LinOk.
+Proof. vm_compute. auto. Qed.
+
 (* ---- replay ---- *)
 
 Lemma replay_app es1 es2 k cur : replay (es1 ++ es2) k cur = replay es2 k (replay es1 k cur).
